@@ -397,4 +397,5 @@ RULES = [
 	('03.n', 'late counterparty-commitment update: only HTLCs in no known commitment are failed back', r03n),
 	('03.j', 'failures / forwards / finalized claims parked behind a monitor update are all returned when it completes, at every exit', r03j),
 	('03.p', 'same-name field transfer: structs carrying this property\'s quantities are filled from the same-named field or a reviewed alias (rules/provenance.py)', lambda F: provenance.for_property(F, 'C03', '03.p')),
+	('03.q', 'no call hands a value named like one parameter of the callee to a different parameter (swapped type-compatible arguments; rules/provenance.py)', lambda F: provenance.swaps_for_property(F, 'C03', '03.q')),
 ]
